@@ -1,8 +1,83 @@
 //go:build verif
 
-// Contracts for package kvcache (property C06), checked by /verif/govc.
+// Contracts for package kvcache (property C06: "the KV cache exposes exactly the causal
+// history of each sequence"), checked by /verif/govc.
+//
+// Abstract view of the cache metadata: cell j = (c.cells[j].pos, S_j) with
+// S_j = { s | inseq(c.cells[j].sequences, s) }; c.ghost_dat[j] = identity of the K/V row
+// stored at location j (ghost array, written only by the trusted contract of moveCells).
+//
+//	R  (representation invariant)  s in S_j ==> has(c.cellRanges, s) && c.cellRanges[s].min <= j <= c.cellRanges[s].max
+//	W  (ranges well formed)        has(c.cellRanges, s) && min <= max ==> 0 <= min && max < len(c.cells)
+//	O1 (ownership, ASSUMED at entry and re-established): the backing arrays of different
+//	   cells' `sequences` slices are never shared (blk = backing object of a slice)
 package kvcache
 
+//@ spec func inseq(xs []int, s int) bool := exists k int :: 0 <= k && k < len(xs) && xs[k] == s
+// the same predicate as a macro (unfolded everywhere): used where only slices.Contains occurs (CanResume)
+//@ spec func inseqm(xs []int, s int) bool = exists k int :: 0 <= k && k < len(xs) && xs[k] == s
+
+// ---- trusted library contracts ----
+//@ extern func slices.Contains
+//@   modifies nothing
+//@   ensures result <==> inseq(s, v)
+//@   ensures result <==> inseqm(s, v)
+// DeleteFunc works in place: the result is a prefix of s holding exactly the kept elements
+//@ extern func slices.DeleteFunc
+//@   modifies s[all]
+//@   ensures len(result) <= len(s) && result == s[0:len(result)]
+//@   ensures forall v int :: inseq(result, v) <==> (old(inseq(s, v)) && !del(v))
+//@ extern func slices.ContainsFunc
+//@   modifies nothing
+//@   ensures result <==> exists v int :: inseq(s, v) && f(v)
+//@ extern func errors.New
+//@   modifies nothing
+//@   ensures result != nil
+//@ extern func errors.Is
+//@   modifies nothing
+//@ extern func fmt.Errorf
+//@   modifies nothing
+//@   ensures result != nil
+//@ extern func log/slog.Debug
+//@   modifies nothing
+//@ extern func math.Inf
+//@   pure reads none
+
+// ---- ml.Backend / ml.Context / ml.Tensor (interface calls): they build graph nodes and
+// ---- tensors; none of them writes cache metadata or Go slices handed to them.
+//@ extern func ml.(Backend).NewContext
+//@   modifies nothing
+//@ extern func ml.(Context).Input
+//@   modifies nothing
+//@ extern func ml.(Context).FromFloatSlice
+//@   modifies nothing
+//@ extern func ml.(Context).FromIntSlice
+//@   modifies nothing
+//@ extern func ml.(Context).Empty
+//@   modifies nothing
+//@ extern func ml.(Context).Forward
+//@   modifies nothing
+//@ extern func ml.(Context).Compute
+//@   modifies nothing
+//@ extern func ml.(Context).Close
+//@   modifies nothing
+//@ extern func ml.(Context).MaxGraphNodes
+//@   modifies nothing
+//@ extern func ml.(Tensor).Shape
+//@   modifies nothing
+//@ extern func ml.(Tensor).Copy
+//@   modifies nothing
+//@ extern func ml.(Tensor).Dim
+//@   modifies nothing
+//@ extern func ml.(Tensor).Stride
+//@   modifies nothing
+//@ extern func ml.(Tensor).View
+//@   modifies nothing
+// The model's RoPE shift callback (field c.shiftFn) builds graph nodes only (A-shiftfn).
+//@ extern func (Causal).shiftFn
+//@   modifies nothing
+
+// ---- arithmetic helpers ----
 //@ func roundDown
 //@   requires 0 <= length && 0 < pad
 //@   modifies nothing
@@ -19,126 +94,111 @@ package kvcache
 //@   modifies nothing
 //@   ensures result.min == 9223372036854775807 && result.max == 0
 
-//@ extern func fmt.Errorf
-//@   modifies nothing
-//@   ensures result != nil
-
+// ---- findStartLoc: first fit. Success: the returned run lies inside the cache and every
+// ---- cell of it is empty (StartForward stores only into that run, so live cells are never
+// ---- overwritten); otherwise an error, and then (for a batch of at least one token) no run
+// ---- of curBatchSize empty cells exists anywhere.
 //@ func (*Causal).findStartLoc
 //@   requires c.curBatchSize >= 0
 //@   modifies nothing
 //@   ensures result.1 == nil ==> 0 <= result.0 && result.0 + c.curBatchSize <= len(c.cells)
 //@   ensures result.1 == nil ==> forall k int :: result.0 <= k && k < result.0 + c.curBatchSize ==> len(c.cells[k].sequences) == 0
 //@   ensures result.1 != nil ==> result.0 == 0
+//@   ensures result.1 != nil && c.curBatchSize >= 1 ==> forall s int :: 0 <= s && s + c.curBatchSize <= len(c.cells) ==> exists k int :: s <= k && k < s + c.curBatchSize && len(c.cells[k].sequences) != 0
 //@   loop 1 invariant 0 <= start && 0 <= count && start + count == rangeindex + 1
+//@   loop 1 invariant c.curBatchSize >= 1 ==> count < c.curBatchSize
 //@   loop 1 invariant forall k int :: start <= k && k <= rangeindex ==> len(c.cells[k].sequences) == 0
+//@   loop 1 invariant c.curBatchSize >= 1 ==> forall s int :: 0 <= s && s < start ==> exists k int :: s <= k && k < s + c.curBatchSize && k < start && len(c.cells[k].sequences) != 0
 
-// ---- abstract view: cell j = (c.cells[j].pos, { s | inseq(c.cells[j].sequences, s) }) ----
-//@ spec func inseq(xs []int, s int) bool := exists k int :: 0 <= k && k < len(xs) && xs[k] == s
-
-//@ extern func slices.Contains
-//@   modifies nothing
-//@   ensures result <==> inseq(s, v)
-
-//@ extern func math.Inf
-//@   pure reads none
-
-//@ extern func ml.(Context).Input
-//@   modifies nothing
-//@ extern func ml.(Context).FromFloatSlice
-//@   modifies nothing
-//@ extern func ml.(Context).Empty
-//@   modifies nothing
-//@ extern func ml.(Context).Forward
-//@   modifies nothing
-//@ extern func ml.(Tensor).Shape
-//@   modifies nothing
-//@ extern func ml.(Tensor).Copy
-//@   modifies nothing
-
-// buildMask: loops 1 (batch rows i), 2 (history columns j), 3 (padding rows)
+// ---- buildMask: loops 1 (batch rows i), 2 (history columns j), 3 (padding rows).
+// ---- mask[i*length+(j-min)] is float32(-Inf) iff the cell j is not visible to batch entry i
+// ---- (other sequence, later position unless causality is disabled for i, or outside the
+// ---- window), else 0; padding rows are -Inf. Floats are uninterpreted: float32(math.Inf(-1))
+// ---- is one fixed term, 0.0 the zero value.
 //@ func (*Causal).buildMask
 //@   requires c.config != nil && 1 <= c.config.MaskBatchPadding && c.config.MaskBatchPadding <= 65536 && 1 <= c.config.CachePadding && c.config.CachePadding <= 65536
 //@   requires 0 <= c.curBatchSize && c.curBatchSize <= 1048576 && len(c.curSequences) == c.curBatchSize && len(c.curPositions) == c.curBatchSize
 //@   requires len(c.cells) <= 2147483648 && len(c.cells) % c.config.CachePadding == 0
 //@   requires 0 <= c.curCellRange.min && c.curCellRange.min <= c.curCellRange.max && c.curCellRange.max < len(c.cells)
+//@   requires 1 <= c.windowSize && forall k int :: 0 <= k && k < c.curBatchSize ==> c.curPositions[k] >= 0
 //@   modifies c.curCellRange
+//@   ensures 0 <= c.curCellRange.min && c.curCellRange.min <= old(c.curCellRange.min) && old(c.curCellRange.max) <= c.curCellRange.max && c.curCellRange.max < len(c.cells)
+//@   assert-at call FromFloatSlice #1 : len(mask) == batchSize * length && length == c.curCellRange.max - c.curCellRange.min + 1 && c.curBatchSize <= batchSize
+//@   assert-at call FromFloatSlice #1 : forall a int, b int :: 0 <= a && a < c.curBatchSize && c.curCellRange.min <= b && b <= c.curCellRange.max ==> mask[a*length+(b-c.curCellRange.min)] == ite(!inseq(c.cells[b].sequences, c.curSequences[a]) || (!inseq(c.opts.Except, a) && c.cells[b].pos > c.curPositions[a]) || c.cells[b].pos < c.curPositions[a] - c.windowSize, float32(math.Inf(-1)), 0.0)
+//@   assert-at call FromFloatSlice #1 : forall k int :: c.curBatchSize * length <= k && k < len(mask) ==> mask[k] == float32(math.Inf(-1))
 //@   loop 1 invariant 0 <= i && i < c.curBatchSize
+//@   loop 1 invariant forall a int, b int :: 0 <= a && a < i && c.curCellRange.min <= b && b <= c.curCellRange.max ==> mask[a*length+(b-c.curCellRange.min)] == ite(!inseq(c.cells[b].sequences, c.curSequences[a]) || (!inseq(c.opts.Except, a) && c.cells[b].pos > c.curPositions[a]) || c.cells[b].pos < c.curPositions[a] - c.windowSize, float32(math.Inf(-1)), 0.0)
+//@   loop 1 invariant forall k int :: i * length <= k && k < len(mask) ==> mask[k] == 0.0
 //@   loop 2 invariant c.curCellRange.min <= j && j <= c.curCellRange.max + 1
+//@   loop 2 invariant forall a int, b int :: 0 <= a && a < i && c.curCellRange.min <= b && b <= c.curCellRange.max ==> mask[a*length+(b-c.curCellRange.min)] == ite(!inseq(c.cells[b].sequences, c.curSequences[a]) || (!inseq(c.opts.Except, a) && c.cells[b].pos > c.curPositions[a]) || c.cells[b].pos < c.curPositions[a] - c.windowSize, float32(math.Inf(-1)), 0.0)
+//@   loop 2 invariant forall b int :: c.curCellRange.min <= b && b < j ==> mask[i*length+(b-c.curCellRange.min)] == ite(!inseq(c.cells[b].sequences, c.curSequences[i]) || (enabled && c.cells[b].pos > c.curPositions[i]) || c.cells[b].pos < c.curPositions[i] - c.windowSize, float32(math.Inf(-1)), 0.0)
+//@   loop 2 invariant forall k int :: i * length + (j - c.curCellRange.min) <= k && k < len(mask) ==> mask[k] == 0.0
+//@   loop 2 invariant enabled <==> !inseq(c.opts.Except, i)
 //@   loop 3 invariant c.curBatchSize * length <= i
+//@   loop 3 invariant forall a int, b int :: 0 <= a && a < c.curBatchSize && c.curCellRange.min <= b && b <= c.curCellRange.max ==> mask[a*length+(b-c.curCellRange.min)] == ite(!inseq(c.cells[b].sequences, c.curSequences[a]) || (!inseq(c.opts.Except, a) && c.cells[b].pos > c.curPositions[a]) || c.cells[b].pos < c.curPositions[a] - c.windowSize, float32(math.Inf(-1)), 0.0)
+//@   loop 3 invariant forall k int :: c.curBatchSize * length <= k && k < i ==> mask[k] == float32(math.Inf(-1))
 
-// CanResume: loop 1 scans the range of seq.
+// ---- CanResume: loop 1 scans the range of seq.
 //@ func (*Causal).CanResume
 //@   requires 0 <= pos && 1 <= c.windowSize
 //@   requires has(c.cellRanges, seq) && c.cellRanges[seq].min <= c.cellRanges[seq].max ==> 0 <= c.cellRanges[seq].min && c.cellRanges[seq].max < len(c.cells)
-//@   requires forall j int :: 0 <= j && j < len(c.cells) && inseq(c.cells[j].sequences, seq) ==> c.cells[j].pos >= 0 && has(c.cellRanges, seq) && c.cellRanges[seq].min <= j && j <= c.cellRanges[seq].max
+//@   requires forall j int :: 0 <= j && j < len(c.cells) && inseqm(c.cells[j].sequences, seq) ==> c.cells[j].pos >= 0 && has(c.cellRanges, seq) && c.cellRanges[seq].min <= j && j <= c.cellRanges[seq].max
 //@   modifies nothing
 //@   ensures c.windowSize == 2147483647 ==> result
-//@   ensures result && c.windowSize != 2147483647 ==> exists j int :: 0 <= j && j < len(c.cells) && inseq(c.cells[j].sequences, seq)
-//@   ensures result && c.windowSize != 2147483647 ==> forall j int :: 0 <= j && j < len(c.cells) && inseq(c.cells[j].sequences, seq) ==> max(0, c.cells[j].pos - c.windowSize) <= max(0, pos - c.windowSize)
+//@   ensures result && c.windowSize != 2147483647 ==> exists j int :: 0 <= j && j < len(c.cells) && inseqm(c.cells[j].sequences, seq)
+//@   ensures result && c.windowSize != 2147483647 ==> forall j int :: 0 <= j && j < len(c.cells) && inseqm(c.cells[j].sequences, seq) ==> max(0, c.cells[j].pos - c.windowSize) <= max(0, pos - c.windowSize)
 //@   ensures !result ==> c.windowSize != 2147483647
-//@   ensures !result ==> (forall j int :: 0 <= j && j < len(c.cells) ==> !inseq(c.cells[j].sequences, seq)) || (exists j int :: 0 <= j && j < len(c.cells) && inseq(c.cells[j].sequences, seq) && max(0, c.cells[j].pos - c.windowSize) > max(0, pos - c.windowSize))
+//@   ensures !result ==> (forall j int :: 0 <= j && j < len(c.cells) ==> !inseqm(c.cells[j].sequences, seq)) || (exists j int :: 0 <= j && j < len(c.cells) && inseqm(c.cells[j].sequences, seq) && max(0, c.cells[j].pos - c.windowSize) > max(0, pos - c.windowSize))
 //@   loop 1 invariant seqRange.min <= i && (i <= seqRange.max + 1 || i == seqRange.min) && -1 <= last
-//@   loop 1 invariant forall k int :: seqRange.min <= k && k < i && inseq(c.cells[k].sequences, seq) ==> c.cells[k].pos <= last
-//@   loop 1 invariant last == -1 ==> forall k int :: seqRange.min <= k && k < i ==> !inseq(c.cells[k].sequences, seq)
-//@   loop 1 invariant last != -1 ==> exists k int :: seqRange.min <= k && k < i && inseq(c.cells[k].sequences, seq) && c.cells[k].pos == last
+//@   loop 1 invariant forall k int :: seqRange.min <= k && k < i && inseqm(c.cells[k].sequences, seq) ==> c.cells[k].pos <= last
+//@   loop 1 invariant last == -1 ==> forall k int :: seqRange.min <= k && k < i ==> !inseqm(c.cells[k].sequences, seq)
+//@   loop 1 invariant last != -1 ==> exists k int :: seqRange.min <= k && k < i && inseqm(c.cells[k].sequences, seq) && c.cells[k].pos == last
 
-//@ extern func ml.(Backend).NewContext
-//@   modifies nothing
-//@ extern func ml.(Context).Close
-//@   modifies nothing
-//@ extern func ml.(Context).Compute
-//@   modifies nothing
-//@ extern func ml.(Context).FromIntSlice
-//@   modifies nothing
-//@ extern func ml.(Tensor).Dim
-//@   modifies nothing
-//@ extern func ml.(Tensor).Stride
-//@   modifies nothing
-//@ extern func ml.(Tensor).View
-//@   modifies nothing
-
-// The model's RoPE shift callback (field c.shiftFn) builds graph nodes only: it does not
-// write cache metadata (assumption A-shiftfn).
-//@ extern func (Causal).shiftFn
-//@   modifies nothing
-
-// shift: only the offset vector handed to the RoPE shift and the bounds are specified
-// (loop 1 fills the vector, loop 2 runs over the layers).
+// ---- shift: only the offset vector handed to the RoPE shift and the bounds are specified
+// ---- (loop 1 fills the vector, loop 2 runs over the layers).
 //@ func (*Causal).shift
 //@   requires has(c.cellRanges, seq) && 0 <= c.cellRanges[seq].min && c.cellRanges[seq].min <= c.cellRanges[seq].max && c.cellRanges[seq].max < len(c.cells)
-//@   requires len(c.cells) <= 2147483648 && !fresh(c.cells)
-//@   requires forall j int :: 0 <= j && j < len(c.cells) ==> !fresh(c.cells[j].sequences)
+//@   requires len(c.cells) <= 2147483648
 //@   modifies nothing
 //@   assert-at call FromIntSlice #1 : len(offsets) == seqRange.max - seqRange.min + 1
 //@   assert-at call FromIntSlice #1 : forall k int :: 0 <= k && k < len(offsets) ==> offsets[k] == ite(inseq(c.cells[seqRange.min+k].sequences, seq) && c.cells[seqRange.min+k].pos >= beginIndex, offset, 0)
 //@   loop 1 invariant forall k int :: 0 <= k && k <= rangeindex ==> offsets[k] == ite(inseq(c.cells[seqRange.min+k].sequences, seq) && c.cells[seqRange.min+k].pos >= beginIndex, offset, 0)
 //@   loop 1 invariant forall k int :: rangeindex < k && k < len(offsets) ==> offsets[k] == 0
 
-// slices.DeleteFunc / ContainsFunc take a predicate closure; fnsat(f, v) is "f(v) is true".
-//@ spec func fnsat(f int, v int) bool
-//@ extern func slices.DeleteFunc
-//@   modifies s[all]
-//@   ensures len(result) <= len(s) && result == s[0:len(result)]
-//@   ensures forall v int :: inseq(result, v) <==> (old(inseq(s, v)) && !fnsat(del, v))
-//@ extern func slices.ContainsFunc
+// ---- predicate closures handed to slices.DeleteFunc / slices.ContainsFunc ----
+//@ func (*Causal).Remove$1
 //@   modifies nothing
-//@   ensures result <==> exists v int :: inseq(s, v) && fnsat(f, v)
-//@ extern func errors.New
+//@   ensures result <==> s == seq
+//@ func (*Causal).Remove$2
 //@   modifies nothing
-//@   ensures result != nil
+//@   ensures result <==> s != seq
+//@ func (*Causal).CopyPrefix$1
+//@   modifies nothing
+//@   ensures result <==> s == dstSeq
+//@ func (*Causal).updateSlidingWindow$1
+//@   modifies nothing
+//@   ensures result <==> s == seq
 
+// ---- Remove: exact view update. With d = (endIndex == MaxInt32 ? 0 : beginIndex-endIndex):
+// ----   seq leaves exactly the cells with beginIndex <= pos < endIndex, every cell of seq with
+// ----   pos >= endIndex moves to pos+d, every other (cell, sequence) pair and every position
+// ----   of a cell that holds another sequence is untouched - also on the error returns; R, W
+// ----   and O1 are kept. Loop 1 scans the cells.
 //@ func (*Causal).Remove
-//@   requires len(c.cells) <= 2147483648 && !fresh(c.cells) && c.cellRanges != nil
-//@   requires forall j int :: 0 <= j && j < len(c.cells) ==> !fresh(c.cells[j].sequences)
+//@   requires len(c.cells) <= 2147483648 && c.cellRanges != nil
 //@   requires 0 <= beginIndex && beginIndex <= endIndex
-//@   requires forall i int, j int, a int, b int :: 0 <= i && i < j && j < len(c.cells) ==> c.cells[i].sequences == nil || &c.cells[i].sequences[a] != &c.cells[j].sequences[b]
-//@   assume-at call slices.DeleteFunc #1 : forall v int :: fnsat(arg1, v) <==> v == seq
-//@   assume-at call slices.ContainsFunc #1 : forall v int :: fnsat(arg1, v) <==> v != seq
+//@   requires forall i int, j int :: 0 <= i && i < len(c.cells) && 0 <= j && j < len(c.cells) && i != j ==> c.cells[i].sequences == nil || blk(c.cells[i].sequences) != blk(c.cells[j].sequences)
+//@   requires forall j int, v int :: 0 <= j && j < len(c.cells) && inseq(c.cells[j].sequences, v) ==> has(c.cellRanges, v) && c.cellRanges[v].min <= j && j <= c.cellRanges[v].max
+//@   requires forall v int :: has(c.cellRanges, v) && c.cellRanges[v].min <= c.cellRanges[v].max ==> 0 <= c.cellRanges[v].min && c.cellRanges[v].max < len(c.cells)
+//@   modifies c.cells[all], c.cellRanges, anyrow(c.cells[0].sequences)
 //@   ensures result == nil ==> forall j int :: 0 <= j && j < len(c.cells) ==> (inseq(c.cells[j].sequences, seq) <==> old(inseq(c.cells[j].sequences, seq)) && !(beginIndex <= old(c.cells[j].pos) && old(c.cells[j].pos) < endIndex))
 //@   ensures forall j int, v int :: 0 <= j && j < len(c.cells) && v != seq ==> (inseq(c.cells[j].sequences, v) <==> old(inseq(c.cells[j].sequences, v)))
 //@   ensures result == nil ==> forall j int :: 0 <= j && j < len(c.cells) ==> c.cells[j].pos == ite(old(inseq(c.cells[j].sequences, seq)) && old(c.cells[j].pos) >= endIndex, old(c.cells[j].pos) + ite(endIndex != 2147483647, beginIndex - endIndex, 0), old(c.cells[j].pos))
 //@   ensures forall j int, v int :: 0 <= j && j < len(c.cells) && v != seq && old(inseq(c.cells[j].sequences, v)) ==> c.cells[j].pos == old(c.cells[j].pos)
 //@   ensures forall v int :: v != seq ==> (has(c.cellRanges, v) <==> old(has(c.cellRanges, v))) && c.cellRanges[v].min == old(c.cellRanges[v].min) && c.cellRanges[v].max == old(c.cellRanges[v].max)
+//@   ensures forall j int, v int :: 0 <= j && j < len(c.cells) && inseq(c.cells[j].sequences, v) ==> has(c.cellRanges, v) && c.cellRanges[v].min <= j && j <= c.cellRanges[v].max
+//@   ensures forall v int :: has(c.cellRanges, v) && c.cellRanges[v].min <= c.cellRanges[v].max ==> 0 <= c.cellRanges[v].min && c.cellRanges[v].max < len(c.cells)
+//@   ensures forall i int, j int :: 0 <= i && i < len(c.cells) && 0 <= j && j < len(c.cells) && i != j ==> c.cells[i].sequences == nil || blk(c.cells[i].sequences) != blk(c.cells[j].sequences)
 //@   loop 1 invariant (seqRange.min == 9223372036854775807 && seqRange.max == 0) || (0 <= seqRange.min && seqRange.min <= seqRange.max && seqRange.max <= rangeindex)
 //@   loop 1 invariant forall j int :: rangeindex < j && j < len(c.cells) ==> c.cells[j].pos == old(c.cells[j].pos) && c.cells[j].sequences == old(c.cells[j].sequences)
 //@   loop 1 invariant forall j int, v int :: rangeindex < j && j < len(c.cells) ==> (inseq(c.cells[j].sequences, v) <==> old(inseq(c.cells[j].sequences, v)))
@@ -147,27 +207,79 @@ package kvcache
 //@   loop 1 invariant forall j int :: 0 <= j && j <= rangeindex ==> c.cells[j].pos == ite(old(inseq(c.cells[j].sequences, seq)) && old(c.cells[j].pos) >= endIndex, old(c.cells[j].pos) + offset, old(c.cells[j].pos))
 //@   loop 1 invariant forall j int, v int :: 0 <= j && j <= rangeindex && v != seq && old(inseq(c.cells[j].sequences, v)) ==> c.cells[j].pos == old(c.cells[j].pos)
 //@   loop 1 invariant forall j int :: 0 <= j && j <= rangeindex && inseq(c.cells[j].sequences, seq) ==> seqRange.min <= j && j <= seqRange.max
-//@   loop 1 invariant forall j int :: 0 <= j && j < len(c.cells) ==> !fresh(c.cells[j].sequences)
+//@   loop 1 invariant forall j int :: 0 <= j && j < len(c.cells) ==> blk(c.cells[j].sequences) == old(blk(c.cells[j].sequences)) && (c.cells[j].sequences == nil <==> old(c.cells[j].sequences == nil))
 
-//@ extern func log/slog.Debug
-//@   modifies nothing
-//@ extern func ml.(Context).MaxGraphNodes
-//@   modifies nothing
+// ---- CopyPrefix: afterwards dstSeq owns exactly the cells of srcSeq with pos < len; every
+// ---- other (cell, sequence) pair and all positions are untouched; R, W kept. Loop 1.
+//@ func (*Causal).CopyPrefix
+//@   requires srcSeq != dstSeq && len(c.cells) <= 2147483648 && c.cellRanges != nil
+//@   requires forall i int, j int :: 0 <= i && i < len(c.cells) && 0 <= j && j < len(c.cells) && i != j ==> c.cells[i].sequences == nil || blk(c.cells[i].sequences) != blk(c.cells[j].sequences)
+//@   requires forall j int, v int :: 0 <= j && j < len(c.cells) && inseq(c.cells[j].sequences, v) ==> has(c.cellRanges, v) && c.cellRanges[v].min <= j && j <= c.cellRanges[v].max
+//@   requires forall v int :: has(c.cellRanges, v) && c.cellRanges[v].min <= c.cellRanges[v].max ==> 0 <= c.cellRanges[v].min && c.cellRanges[v].max < len(c.cells)
+//@   modifies c.cells[all], c.cellRanges, anyrow(c.cells[0].sequences)
+//@   ensures forall j int :: 0 <= j && j < len(c.cells) ==> (inseq(c.cells[j].sequences, dstSeq) <==> old(inseq(c.cells[j].sequences, srcSeq)) && old(c.cells[j].pos) < len)
+//@   ensures forall j int, v int :: 0 <= j && j < len(c.cells) && v != dstSeq ==> (inseq(c.cells[j].sequences, v) <==> old(inseq(c.cells[j].sequences, v)))
+//@   ensures forall j int :: 0 <= j && j < len(c.cells) ==> c.cells[j].pos == old(c.cells[j].pos)
+//@   ensures forall v int :: v != dstSeq ==> (has(c.cellRanges, v) <==> old(has(c.cellRanges, v))) && c.cellRanges[v].min == old(c.cellRanges[v].min) && c.cellRanges[v].max == old(c.cellRanges[v].max)
+//@   ensures forall j int, v int :: 0 <= j && j < len(c.cells) && inseq(c.cells[j].sequences, v) ==> has(c.cellRanges, v) && c.cellRanges[v].min <= j && j <= c.cellRanges[v].max
+//@   ensures forall v int :: has(c.cellRanges, v) && c.cellRanges[v].min <= c.cellRanges[v].max ==> 0 <= c.cellRanges[v].min && c.cellRanges[v].max < len(c.cells)
+//@   loop 1 invariant (seqRange.min == 9223372036854775807 && seqRange.max == 0) || (0 <= seqRange.min && seqRange.min <= seqRange.max && seqRange.max <= rangeindex)
+//@   loop 1 invariant forall j int :: 0 <= j && j < len(c.cells) ==> c.cells[j].pos == old(c.cells[j].pos)
+//@   loop 1 invariant forall j int :: rangeindex < j && j < len(c.cells) ==> c.cells[j].sequences == old(c.cells[j].sequences)
+//@   loop 1 invariant forall j int, v int :: rangeindex < j && j < len(c.cells) ==> (inseq(c.cells[j].sequences, v) <==> old(inseq(c.cells[j].sequences, v)))
+//@   loop 1 invariant forall j int :: 0 <= j && j <= rangeindex ==> (inseq(c.cells[j].sequences, dstSeq) <==> old(inseq(c.cells[j].sequences, srcSeq)) && old(c.cells[j].pos) < len)
+//@   loop 1 invariant forall j int, v int :: 0 <= j && j <= rangeindex && v != dstSeq ==> (inseq(c.cells[j].sequences, v) <==> old(inseq(c.cells[j].sequences, v)))
+//@   loop 1 invariant forall j int :: 0 <= j && j <= rangeindex && inseq(c.cells[j].sequences, dstSeq) ==> seqRange.min <= j && j <= seqRange.max
+//@   loop 1 invariant forall i int, j int :: 0 <= i && i < len(c.cells) && 0 <= j && j < len(c.cells) && i != j ==> c.cells[i].sequences == nil || blk(c.cells[i].sequences) != blk(c.cells[j].sequences)
 
-// moveCells (trusted: View/Copy row semantics of the backend, assumption A-rows): copies
-// the K/V rows [src, src+length) to [dst, dst+length) in order. c.ghost_dat[j] is the
-// identity of the row stored at location j.
+// ---- updateSlidingWindow: loops 1 (lowest position per batch sequence), 2 (batch sequences,
+// ---- map order), 3 (cells of the sequence's range). Sets only shrink, positions never change,
+// ---- an evicted (cell, sequence) pair lies outside the window of EVERY batch entry of that
+// ---- sequence; R, W, O1 kept.
+//@ func (*Causal).updateSlidingWindow
+//@   requires 1 <= c.windowSize && len(c.curSequences) == len(c.curPositions) && len(c.cells) <= 2147483648 && c.cellRanges != nil
+//@   requires forall k int :: 0 <= k && k < len(c.curPositions) ==> c.curPositions[k] >= 0
+//@   requires forall i int, j int :: 0 <= i && i < len(c.cells) && 0 <= j && j < len(c.cells) && i != j ==> c.cells[i].sequences == nil || blk(c.cells[i].sequences) != blk(c.cells[j].sequences)
+//@   requires forall j int :: 0 <= j && j < len(c.cells) ==> c.cells[j].sequences == nil || (blk(c.cells[j].sequences) != blk(c.curSequences) && blk(c.cells[j].sequences) != blk(c.opts.Except))
+//@   requires forall j int, v int :: 0 <= j && j < len(c.cells) && inseq(c.cells[j].sequences, v) ==> has(c.cellRanges, v) && c.cellRanges[v].min <= j && j <= c.cellRanges[v].max
+//@   requires forall v int :: has(c.cellRanges, v) && c.cellRanges[v].min <= c.cellRanges[v].max ==> 0 <= c.cellRanges[v].min && c.cellRanges[v].max < len(c.cells)
+//@   modifies c.cells[all], c.cellRanges, anyrow(c.cells[0].sequences)
+//@   ensures forall j int, v int :: 0 <= j && j < len(c.cells) && inseq(c.cells[j].sequences, v) ==> old(inseq(c.cells[j].sequences, v))
+//@   ensures forall j int :: 0 <= j && j < len(c.cells) ==> c.cells[j].pos == old(c.cells[j].pos) && blk(c.cells[j].sequences) == old(blk(c.cells[j].sequences))
+//@   ensures forall k int :: 0 <= k && k < len(c.curSequences) ==> c.curSequences[k] == old(c.curSequences[k])
+//@   ensures forall j int, v int :: 0 <= j && j < len(c.cells) && inseq(c.cells[j].sequences, v) ==> has(c.cellRanges, v) && c.cellRanges[v].min <= j && j <= c.cellRanges[v].max
+//@   ensures forall v int :: has(c.cellRanges, v) && c.cellRanges[v].min <= c.cellRanges[v].max ==> 0 <= c.cellRanges[v].min && c.cellRanges[v].max < len(c.cells)
+//@   ensures forall i int, j int :: 0 <= i && i < len(c.cells) && 0 <= j && j < len(c.cells) && i != j ==> c.cells[i].sequences == nil || blk(c.cells[i].sequences) != blk(c.cells[j].sequences)
+//@   loop 1 invariant forall k int :: 0 <= k && k <= rangeindex ==> has(lowestPos, c.curSequences[k]) && lowestPos[c.curSequences[k]] <= c.curPositions[k]
+//@   loop 1 invariant forall v int :: has(lowestPos, v) ==> lowestPos[v] >= 0
+//@   loop 2 invariant forall j int, v int :: 0 <= j && j < len(c.cells) && inseq(c.cells[j].sequences, v) ==> old(inseq(c.cells[j].sequences, v))
+//@   loop 2 invariant forall j int :: 0 <= j && j < len(c.cells) ==> c.cells[j].pos == old(c.cells[j].pos) && blk(c.cells[j].sequences) == old(blk(c.cells[j].sequences)) && (c.cells[j].sequences == nil <==> old(c.cells[j].sequences == nil))
+//@   loop 2 invariant forall k int :: 0 <= k && k < len(c.curSequences) ==> c.curSequences[k] == old(c.curSequences[k])
+//@   loop 2 invariant forall j int, v int :: 0 <= j && j < len(c.cells) && inseq(c.cells[j].sequences, v) ==> has(c.cellRanges, v) && c.cellRanges[v].min <= j && j <= c.cellRanges[v].max
+//@   loop 2 invariant forall v int :: has(c.cellRanges, v) && c.cellRanges[v].min <= c.cellRanges[v].max ==> 0 <= c.cellRanges[v].min && c.cellRanges[v].max < len(c.cells)
+//@   loop 2 invariant forall v int :: has(lowestPos, v) ==> lowestPos[v] >= 0
+//@   loop 3 invariant oldRange.min <= i && (newRange.min == 9223372036854775807 && newRange.max == 0 || (oldRange.min <= newRange.min && newRange.min <= newRange.max && newRange.max < i))
+//@   loop 3 invariant forall j int, v int :: 0 <= j && j < len(c.cells) && inseq(c.cells[j].sequences, v) ==> old(inseq(c.cells[j].sequences, v))
+//@   loop 3 invariant forall j int :: 0 <= j && j < len(c.cells) ==> c.cells[j].pos == old(c.cells[j].pos) && blk(c.cells[j].sequences) == old(blk(c.cells[j].sequences)) && (c.cells[j].sequences == nil <==> old(c.cells[j].sequences == nil))
+//@   loop 3 invariant forall k int :: 0 <= k && k < len(c.curSequences) ==> c.curSequences[k] == old(c.curSequences[k])
+//@   loop 3 invariant forall j int, v int :: 0 <= j && j < len(c.cells) && inseq(c.cells[j].sequences, v) ==> has(c.cellRanges, v) && c.cellRanges[v].min <= j && j <= c.cellRanges[v].max
+//@   loop 3 invariant forall v int :: has(c.cellRanges, v) && c.cellRanges[v].min <= c.cellRanges[v].max ==> 0 <= c.cellRanges[v].min && c.cellRanges[v].max < len(c.cells)
+//@   loop 3 invariant forall j int :: oldRange.min <= j && j < i && inseq(c.cells[j].sequences, seq) ==> newRange.min <= j && j <= newRange.max
+
+// ---- moveCells (trusted: View/Copy row semantics of the backend, assumption A-rows): copies
+// ---- the K/V rows [src, src+length) to [dst, dst+length) in order.
 //@ extern func (*Causal).moveCells
 //@   requires 0 <= src && 0 <= dst && 0 <= length && dst + length <= src && src + length <= len(c.cells)
 //@   modifies c.ghost_dat[all]
 //@   ensures forall j int :: dst <= j && j < dst + length ==> c.ghost_dat[j] == old(c.ghost_dat[j-dst+src])
 //@   ensures forall j int :: j < dst || dst + length <= j ==> c.ghost_dat[j] == old(c.ghost_dat[j])
 
-// defrag: loops 1 (count layers), 2 (dst ascending), 3 (src descending), 4 (sequences), 5 (cells)
+// ---- defrag: loops 1 (count layers), 2 (dst ascending), 3 (src descending), 4 (sequences), 5 (cells).
+// ---- With row identities named by their location at entry (c.ghost_dat[j] == j): afterwards
+// ---- every live cell j carries the metadata of the original cell whose ROW is now at j.
 //@ func (*Causal).defrag
 //@   opt abstract div
-//@   requires len(c.cells) <= 2147483648 && !fresh(c.cells)
-//@   requires forall j int :: 0 <= j && j < len(c.cells) ==> !fresh(c.cells[j].sequences)
+//@   requires len(c.cells) <= 2147483648
 //@   requires forall j int :: c.ghost_dat[j] == j
 //@   ensures forall j int, g int :: 0 <= j && j < len(c.cells) && g == c.ghost_dat[j] && len(c.cells[j].sequences) != 0 ==> 0 <= g && g < len(c.cells) && c.cells[j].pos == old(c.cells[g].pos) && c.cells[j].sequences == old(c.cells[g].sequences)
 //@   loop 2 invariant 0 <= dst && -1 <= src && src < len(c.cells) && dst <= src + 1 && 0 <= pendingLen
